@@ -167,23 +167,7 @@ Fixpoint exchange_posts (ord : bool) (cp : comm -> Z) (ps : list post) (bal : va
       end
   end.
 
-(* balance_t::sorted_amounts: stable sort by commodity (base symbol, then the whole key) *)
-Definition comm_key (a : amount) : str := match acomm a with Some c => c | None => [] end.
-
-Definition comm_le (a b : amount) : bool :=
-  match str_compare (base_sym (comm_key a)) (base_sym (comm_key b)) with
-  | Lt => true
-  | Gt => false
-  | Eq => match str_compare (comm_key a) (comm_key b) with Gt => false | _ => true end
-  end.
-
-Fixpoint insert_sorted (a : amount) (l : list amount) : list amount :=
-  match l with
-  | [] => [a]
-  | x :: l' => if comm_le a x then a :: l else x :: insert_sorted a l'
-  end.
-
-Definition sorted_amounts (b : balance) : list amount := fold_right insert_sorted [] b.
+(* balance_t::sorted_amounts: Model/Amount.v (comm_key, comm_le, insert_sorted, sorted_amounts) *)
 
 Definition fill_amounts (bal : value) : res (list amount) :=
   match bal with
